@@ -73,6 +73,8 @@ CHECKS = {
             {"harnesses": [H + "ZZH3pTables"]},
             {"harnesses": [H + "ZZH3RoundTrip"], "quick": {"budget": 2, "atoms": 2, "funcs": 1}, "thorough": {"budget": 3, "atoms": 1, "funcs": 0}},
             {"harnesses": [H + "ZZH3RoundTrip"], "quick": {"budget": 1, "atoms": 7, "funcs": 1}, "thorough": {"budget": 2, "atoms": 7, "funcs": 1}},
+            # followed by a second, indented statement (layout state must not leak out of the first)
+            {"harnesses": [H + "ZZH3RoundTrip"], "quick": {"budget": 2, "atoms": 1, "funcs": 1, "follow": 1}, "thorough": {"budget": 2, "atoms": 2, "funcs": 1, "follow": 1}},
         ],
     },
     "C06": {
@@ -88,6 +90,8 @@ CHECKS = {
             # statement structure with palette leaves (object/function values, groups, signs, multi-line backtick strings)
             {"harnesses": [H + "ZZH6Pretty"], "flags": VLQ_REDIRECT, "quick": {"budget": 0, "stmts": 3, "palette": 12, "nofunc": 1, "trivia": 0, "indents": 2}, "thorough": {"budget": 1, "stmts": 2, "palette": 6, "maxlist": 1, "nofunc": 1, "trivia": 0, "indents": 1}},
             {"harnesses": [H + "ZZH6Pretty"], "flags": VLQ_REDIRECT, "quick": {"budget": 1, "stmts": 1, "palette": 6, "maxlist": 1, "nofunc": 1, "trivia": 0, "indents": 1}, "thorough": dict(PAL_T, trivia=0, indents=1)},
+            # comments together with a multi-line backtick string (escaped backtick, space before the line break)
+            {"harnesses": [H + "ZZH6Pretty"], "flags": VLQ_REDIRECT, "quick": {"budget": 0, "stmts": 2, "palette": 12, "palettemask": 513, "trivia": 1, "triviakinds": 5, "nofunc": 1, "indents": 1}, "thorough": {"budget": 0, "stmts": 3, "palette": 12, "palettemask": 513, "trivia": 2, "triviakinds": 5, "nofunc": 1, "indents": 2}},
             # statement structure (nested if/else/while/for/blocks) with identifier leaves and free empty blocks
             {"harnesses": [H + "ZZH6Pretty"], "flags": VLQ_REDIRECT, "quick": {"budget": 2, "stmts": 1, "palette": 12, "palettemask": 1, "maxlist": 1, "nofunc": 1, "exprmask": 1, "trivia": 0, "indents": 1}, "thorough": {"budget": 3, "stmts": 1, "palette": 12, "palettemask": 1, "maxlist": 1, "nofunc": 1, "exprmask": 1, "trivia": 0, "indents": 1}},
         ],
@@ -161,6 +165,8 @@ CHECKS = {
             {"harnesses": [H + "ZZH4cReentrant"], "flags": VLQ_REDIRECT,
              "quick": {"budget": 3, "stmts": 1, "atoms": 1, "maxlist": 0, "nofunc": 1, "exprmask": 1042, "exprstmtonly": 1, "binlevels": 2},
              "thorough": {"budget": 4, "stmts": 1, "atoms": 1, "maxlist": 0, "nofunc": 1, "exprmask": 1042, "exprstmtonly": 1, "binlevels": 2}},
+            # re-entrant interceptor on malformed token buffers: same tree and errors as the default path
+            {"harnesses": [H + "ZZH4cReentrant"], "flags": VLQ_REDIRECT, "quick": {"malformed": 1, "T": 2}, "thorough": {"malformed": 1, "T": 3}},
             {"harnesses": [H + "ZZH4eRepeatedBuilds"], "flags": VLQ_REDIRECT, "quick": dict(GEN_Q, budget=1, builds=3), "thorough": dict(GEN_Q, builds=4)},
         ],
     },
@@ -180,6 +186,8 @@ CHECKS = {
         "assumptions": SCRIPT_ASSUME,
         "runs": [
             {"harnesses": [H + "ZZH11Total"], "flags": VLQ_REDIRECT, "quick": {"T": 2}, "thorough": {"T": 3}},
+            # numeric tokens whose text the parser must validate (range, truncated prefixes, bad exponents)
+            {"harnesses": [H + "ZZH11Literals"], "flags": VLQ_REDIRECT},
             # the same after an earlier plugin-configured job in the same process (history clause of totality)
             {"harnesses": [H + "ZZH11Total"], "flags": VLQ_REDIRECT + ["-max-steps", "200000"], "quick": {"T": 1, "prelude": 1}, "thorough": {"T": 2, "prelude": 1}},
         ],
@@ -224,6 +232,10 @@ CHECKS = {
         "runs": [
             {"harnesses": [H + "ZZH16bFinal"], "flags": VLQ_REDIRECT, "quick": {"T": 2}, "thorough": {"T": 3}},
             {"harnesses": [H + "ZZH16aNesting"], "flags": VLQ_REDIRECT, "quick": GEN_Q, "thorough": GEN_T},
+            # inductive step over nesting depth: stack preset to depth 1..200, restored entry for entry
+            {"harnesses": [H + "ZZH16cDepth"], "flags": VLQ_REDIRECT, "quick": dict(GEN_Q, budget=1), "thorough": GEN_Q},
+            # a second parser living inside an interceptor call of the first
+            {"harnesses": [H + "ZZH16dInnerParser"], "flags": VLQ_REDIRECT, "quick": dict(GEN_Q, stmts=1), "thorough": GEN_Q},
         ],
     },
     "C10": {
